@@ -438,6 +438,48 @@ fn modn_layer(ctx: &mut Ctx) {
     }
 }
 
+/// operand pairs whose integer product has a boundary shape (sm2x::product_shapes) through mod_n_mul and Fp::fp_mul
+fn product_shape_layer(ctx: &mut Ctx) {
+    let pr = r9::params();
+    let reps = ctx.n(4, 200);
+    let mut ps = ctx.prng("prodshape");
+    let mut pi = 0u64;
+    for _ in 0..reps {
+        for (name, a, b) in crate::sm2x::product_shapes(&pr.n, &mut ps) {
+            pi += 1;
+            if !ctx.mine(pi) {
+                continue;
+            }
+            let (la, lb) = (limbs(&a), limbs(&b));
+            ctx.eval();
+            ctx.class("mod_n_mul_product_shape");
+            ctx.class(&format!("mod_n_mul:{}", name.split(':').next().unwrap()));
+            ctx.distinct("modn", &[&r9::b32(&a), &r9::b32(&b)]);
+            let want = (&a * &b) % &pr.n;
+            match guard(|| gm_sm9::fields::mod_n_mul(&la, &lb)) {
+                Outcome::Ret(g) if r9::from_limbs(&g) == want => {}
+                o => ctx.violation(&format!("mod_n_mul:product_shape:{}", if o.is_ret() { "wrong-value" } else { o.class() }), json!({"a": hl(&la), "b": hl(&lb), "shape": name, "expected": hex::encode(r9::b32(&want))})),
+            }
+        }
+        for (name, a, b) in crate::sm2x::product_shapes(&pr.p, &mut ps) {
+            pi += 1;
+            if !ctx.mine(pi) {
+                continue;
+            }
+            // stored limbs a, b: the Montgomery product is a*b*R^-1 mod p
+            let (la, lb) = (limbs(&a), limbs(&b));
+            ctx.eval();
+            ctx.class("fp_mul_product_shape");
+            ctx.class(&format!("fp_mul:{}", name.split(':').next().unwrap()));
+            let want = r9::from_mont(&limbs(&((&a * &b) % &pr.p)));
+            match guard(|| la.fp_mul(&lb)) {
+                Outcome::Ret(g) if r9::from_limbs(&g) == want => {}
+                o => ctx.violation(&format!("Fp::fp_mul:product_shape:{}", if o.is_ret() { "wrong-value" } else { o.class() }), json!({"a": hl(&la), "b": hl(&lb), "shape": name})),
+            }
+        }
+    }
+}
+
 fn booth_ref(k: &BigUint, w: u64, i: u64) -> i64 {
     // d_i = sum_{j<w} (bit(wi+j-1) - bit(wi+j)) 2^j   with bit(-1) = 0
     let mut d = 0i64;
@@ -597,6 +639,41 @@ fn table_layer(ctx: &mut Ctx) {
         }
     }
     ctx.exhaustive("37 x 64 fixed-base table entries through the hook and the scalars (j+1)*2^(7i) through Point::g_mul", true);
+}
+
+/// scalars j, N - j and N + j for every small j on the generators: the comb / window recodings of scalars next to the
+/// group order produce digit strings whose partial sums meet table points again (doubling or cancellation inside the
+/// fixed-base addition chain)
+fn near_order_sweep(ctx: &mut Ctx) {
+    let pr = r9::params();
+    let jmax = ctx.n(200, 1200);
+    let g1 = r9::g1_gen();
+    let g2 = r9::g2_gen();
+    let (lg1, lg2) = (hk::generator_p1(), hk::generator_p2());
+    let mut acc1: r9::G1 = None;
+    let mut acc2: r9::G2 = None;
+    for j in 0..=jmax {
+        if j > 0 {
+            acc1 = r9::g1_add(&acc1, &g1);
+            acc2 = r9::g2_add(&acc2, &g2);
+        }
+        if !ctx.mine(j) {
+            continue;
+        }
+        let neg1 = r9::g1_neg(&acc1);
+        let neg2 = r9::g2_neg(&acc2);
+        for (cls, k, w1, w2) in [("k=j", BigUint::from(j), &acc1, &acc2), ("k=N-j", &pr.n - BigUint::from(j), &neg1, &neg2), ("k=N+j", &pr.n + BigUint::from(j), &acc1, &acc2)] {
+            let lk = limbs(&k);
+            ctx.class("near_order_sweep");
+            same_g1(ctx, "g_mul", cls, guard(|| Point::g_mul(&lk)), w1, json!({"k": hl(&lk)}));
+            same_g1(ctx, "point_mul", cls, guard(|| lg1.point_mul(&lk)), w1, json!({"P": "P1", "k": hl(&lk)}));
+            if j % 4 == 0 || ctx.thorough {
+                same_g2(ctx, "g_mul", cls, guard(|| TwistPoint::g_mul(&lk)), w2, json!({"k": hl(&lk)}));
+                same_g2(ctx, "point_mul", cls, guard(|| lg2.point_mul(&lk)), w2, json!({"P": "P2", "k": hl(&lk)}));
+            }
+        }
+    }
+    ctx.exhaustive("scalars j, N-j, N+j for j in 0..=200 (thorough 1200) on P1 (fixed-base and variable-base) and, thinned, on P2", true);
 }
 
 fn group_layer(ctx: &mut Ctx) {
@@ -793,14 +870,16 @@ pub fn run(ctx: &mut Ctx) {
     ctx.require(&[
         "Fp::fp_mul", "Fp::fp_inv", "Fp::fp_div2", "fp_pow", "Fp2::fp_mul", "Fp2::fp_inv", "Fp2::fp_sqr", "Fp2::sqr_u", "Fp2::fp_mul_u", "fp2_zero_mask=1", "fp2_zero_mask=2", "Fp4::fp_mul", "Fp4::fp_inv", "Fp4::fp_mul_v", "Fp4::sqr_v", "fp4_zero_mask=05", "fp4_zero_mask=10",
         "Fp12::fp_mul", "Fp12::fp_sqr", "Fp12::fp_inv", "Fp12::frobenius^1", "Fp12::frobenius^2", "Fp12::frobenius^3", "Fp12::frobenius^6", "Fp12::fp_line_mul", "Fp12::pow", "Fp12::final_exponent", "fp12_zero_subset", "fp12_c2_zero_branch",
-        "sm9_u256_primitives", "mod_n_add", "mod_n_sub", "mod_n_mul", "mod_n_inv", "mod_n_pow", "booth_w5", "booth_w7", "booth_recomposition", "table_entry", "table_scalar", "table_scalar_negated",
+        "sm9_u256_primitives", "mod_n_add", "mod_n_sub", "mod_n_mul", "mod_n_inv", "mod_n_pow", "mod_n_mul_product_shape", "fp_mul_product_shape", "booth_w5", "booth_w7", "booth_recomposition", "table_entry", "table_scalar", "table_scalar_negated",
         "G1::point_add", "G1::point_double", "G1::point_mul", "G1::g_mul", "G1::point_equals", "G1::is_on_curve", "G2::point_add", "G2::twist_point_add_full", "G2::point_double", "G2::point_mul", "G2::g_mul", "G2::point_equals", "G2::point_pi1",
-        "P_eq_Q_diff_Z", "P_eq_negQ_diff_Z", "P_ne_Q_rhs_Z!=1", "consecutive_negated_base", "consecutive_same_point_other_Z", "infinity_arbitrary_XY", "k=0", "k=N", "k=N+1", "k=2^256-1", "k=random", "k=sparse_limbs", "pow_sparse_exponent", "G1::infinity_equals_infinity",
+        "P_eq_Q_diff_Z", "P_eq_negQ_diff_Z", "P_ne_Q_rhs_Z!=1", "consecutive_negated_base", "consecutive_same_point_other_Z", "infinity_arbitrary_XY", "k=0", "k=N", "k=N+1", "k=2^256-1", "k=random", "k=sparse_limbs", "pow_sparse_exponent", "G1::infinity_equals_infinity", "near_order_sweep",
     ]);
     tower_layer(ctx);
     modn_layer(ctx);
+    product_shape_layer(ctx);
     booth_layer(ctx);
     table_layer(ctx);
+    near_order_sweep(ctx);
     group_layer(ctx);
     ctx.sample(json!({"tower_case": "Fp12 element with tower coefficients (c000..c211) where the components selected by a 12-bit mask are zero; mul/sqr/inv/neg/div2/double/triple/Frobenius^{1,2,3,6} compared with Fp[w]/(w^12+2) arithmetic"}));
     ctx.sample(json!({"group_case": "P=[k]P2 in Jacobian (Z in Fp2: 1, u, a, p-1, a+bu); add (mixed and full), P+P different Z, P+(-P), infinity forms, double, neg, sub, [k]P, point_equals on (P,P'), (P,-P), (P,Q)"}));
